@@ -144,7 +144,7 @@ Proof. vm_compute. repeat split; reflexivity. Qed.
 (* ------------------------------------------------------------------------------------------------------
    Added in build session 4 (statements re-stated from the proof files by harness tooling; each is closed by
    exact). *)
-From SplipyModel Require Import Transfer.ParamObj Transfer.ParamOps Transfer.ParamOps2.
+From SplipyModel Require Import Transfer.ParamObj Transfer.ParamOps Transfer.ParamOps2 Model.LowerOrder Proofs.LowerOrderProofs.
 Open Scope R_scope.
 Theorem C05_executed_is_proved_raise :
   forall (tol : Q) (o : obj Q) (raises : list nat),
@@ -163,4 +163,121 @@ Theorem C05_executed_is_proved_basis_raise :
          basisQ2R (basis_raise_order tol b amount) = basis_raise_order (Q2R tol) (basisQ2R b) amount.
 Proof. exact @basis_raise_order_transfer. Qed.
 Print Assumptions C05_executed_is_proved_basis_raise.
+
+Theorem C05_raise_order_multiplicities :
+  forall (tol : R) (p : nat) (l : list R) (a : nat),
+         0 <= tol ->
+         lsorted l ->
+         l <> [] ->
+         separated tol l ->
+         let b' := basis_raise_order tol {| b_order := p; b_knots := l; b_per1 := 0 |} a in
+         b_order b' = (p + a)%nat /\
+         b_per1 b' = 0%nat /\
+         lsorted (b_knots b') /\
+         (forall x : R, In x (b_knots b') <-> In x l) /\
+         (forall x : R, In x l -> SplitCompose.mult (b_knots b') x = (SplitCompose.mult l x + a)%nat) /\
+         (forall x : R, ~ In x l -> SplitCompose.mult (b_knots b') x = 0%nat) /\
+         length (b_knots b') =
+         (length l + a * length (knot_spans tol {| b_order := p; b_knots := l; b_per1 := 0 |} true))%nat.
+Proof. exact @raise_order_mults. Qed.
+Print Assumptions C05_raise_order_multiplicities.
+
+Theorem C05_raise_order_keeps_continuity :
+  forall (tol : R) (p : nat) (l : list R) (a : nat) (x : R),
+         0 < tol ->
+         lsorted l ->
+         (1 <= p)%nat ->
+         (2 * p <= length l)%nat ->
+         open_knots l p ->
+         separated tol l ->
+         In x l ->
+         Tol.basis_continuity tol {| b_order := p; b_knots := l; b_per1 := 0 |} x =
+         Ok (Some (Z.of_nat p - Z.of_nat (SplitCompose.mult l x) - 1)%Z) /\
+         Tol.basis_continuity tol (basis_raise_order tol {| b_order := p; b_knots := l; b_per1 := 0 |} a) x =
+         Ok (Some (Z.of_nat p - Z.of_nat (SplitCompose.mult l x) - 1)%Z).
+Proof. exact @raise_order_continuity. Qed.
+Print Assumptions C05_raise_order_keeps_continuity.
+
+Theorem C05_lower_order_knots :
+  forall (tol : R) (p : nat) (l : list R) (a : nat),
+         0 < tol ->
+         lsorted l ->
+         l <> [] ->
+         separated tol l ->
+         IdenticalEndToEnd.clamped l p ->
+         (2 <= p - a)%nat ->
+         basis_lower_order tol {| b_order := p; b_knots := l; b_per1 := 0 |} a =
+         Ok
+           {|
+             b_order := p - a;
+             b_knots :=
+               flat_map (fun x : R => repeat x (Nat.max (SplitCompose.mult l x - a) 1))
+                 (knot_spans tol {| b_order := p; b_knots := l; b_per1 := 0 |} true);
+             b_per1 := 0
+           |}.
+Proof. exact @lower_order_knots. Qed.
+Print Assumptions C05_lower_order_knots.
+
+Theorem C05_lower_order_multiplicities :
+  forall (tol : R) (p : nat) (l : list R) (a : nat),
+         0 < tol ->
+         lsorted l ->
+         l <> [] ->
+         separated tol l ->
+         IdenticalEndToEnd.clamped l p ->
+         (2 <= p - a)%nat ->
+         exists K : list R,
+           basis_lower_order tol {| b_order := p; b_knots := l; b_per1 := 0 |} a =
+           Ok {| b_order := p - a; b_knots := K; b_per1 := 0 |} /\
+           lsorted K /\
+           (forall x : R, In x K <-> In x l) /\
+           (forall x : R, In x l -> SplitCompose.mult K x = Nat.max (SplitCompose.mult l x - a) 1) /\
+           (forall x : R, ~ In x l -> SplitCompose.mult K x = 0%nat).
+Proof. exact @lower_order_mults. Qed.
+Print Assumptions C05_lower_order_multiplicities.
+
+Theorem C05_lower_after_raise_basis :
+  forall (tol : R) (p : nat) (l : list R) (a : nat),
+         0 < tol ->
+         lsorted l ->
+         (2 <= p)%nat ->
+         (2 * p <= length l)%nat ->
+         open_knots l p ->
+         separated tol l ->
+         basis_lower_order tol (basis_raise_order tol {| b_order := p; b_knots := l; b_per1 := 0 |} a) a =
+         Ok {| b_order := p; b_knots := l; b_per1 := 0 |}.
+Proof. exact @lower_after_raise_basis. Qed.
+Print Assumptions C05_lower_after_raise_basis.
+
+Theorem C05_lower_order_too_low :
+  forall (tol : R) (b : basis R) (a : nat),
+         (b_order b - a < 2)%nat -> basis_lower_order tol b a = Err ValueError.
+Proof. exact @lower_order_too_low. Qed.
+Print Assumptions C05_lower_order_too_low.
+
+Theorem C05_lower_after_raise_order1_refuted :
+  forall (tol : R) (b : basis R) (a : nat),
+         b_order b = 1%nat -> basis_lower_order tol (basis_raise_order tol b a) a = Err ValueError.
+Proof. exact @lower_after_raise_order1_refuted. Qed.
+Print Assumptions C05_lower_after_raise_order1_refuted.
+
+Theorem C05_lower_order_unclamped :
+  forall (tol : R) (p : nat) (l : list R) (a : nat),
+         (2 <= p - a)%nat ->
+         kn l 0 < kn l (p - 1) ->
+         basis_lower_order tol {| b_order := p; b_knots := l; b_per1 := 0 |} a = Err ValueError.
+Proof. exact @lower_order_unclamped. Qed.
+Print Assumptions C05_lower_order_unclamped.
+
+Theorem C05_lower_order_periodic_error :
+  forall (tol : R) (b : basis R) (a : nat),
+         b_per1 b <> 0%nat -> exists e : err, basis_lower_order tol b a = Err e.
+Proof. exact @lower_order_periodic_error. Qed.
+Print Assumptions C05_lower_order_periodic_error.
+
+Theorem C05_lower_after_raise_periodic_refuted :
+  forall (tol : R) (b : basis R) (a : nat),
+         b_per1 b <> 0%nat -> basis_lower_order tol (basis_raise_order tol b a) a <> Ok b.
+Proof. exact @lower_after_raise_periodic_refuted. Qed.
+Print Assumptions C05_lower_after_raise_periodic_refuted.
 
